@@ -299,9 +299,15 @@ def r7_stdin_only_in_helper_thread(ctx, rule):
         ctx.ok(rule, 'pcfg_guesser.py', 'no function reachable from main() outside the keyboard thread touches standard input (%d functions)' % n)
 
 
+def _saved_position_exact(ctx, rule):
+    # an explicit quit stops at a boundary AND the rest can be obtained: the saved position is the exact popped probability (seed
+    # C12-k: '{:.12e}'.format - rounded down, the popped-but-unguessed pre-terminal is lost on --load)
+    from . import c08
+    return c08.r4_saved_position(ctx, rule)
+
 def rules(tier):
     return [('C12.R1', r1_no_liveness_exit), ('C12.R2', r2_quit_flag_writers), ('C12.R3', r3_quit_points),
-            ('C12.R4', r4_thread_write_set), ('C12.R5', r5_thread_stdout), ('C12.R6', _omen_quit_order), ('C12.R7', r7_stdin_only_in_helper_thread)]
+            ('C12.R4', r4_thread_write_set), ('C12.R5', r5_thread_stdout), ('C12.R6', _omen_quit_order), ('C12.R7', r7_stdin_only_in_helper_thread), ('C12.R8', _saved_position_exact)]
 
 
 META = {
